@@ -12,6 +12,7 @@ CONSTANTS
   MaxEnts = 0
   LossySend = FALSE
   SimDepth = 0
+  Script <- NoScript
   W_CommitAnyTerm = FALSE
   W_VoteIgnoreVoted = FALSE
   W_VoteIgnoreLog = FALSE
@@ -19,6 +20,7 @@ CONSTANTS
   W_AppendAlwaysTruncates = FALSE
   W_HeartbeatCommitUnbounded = FALSE
   W_QuorumMinusOne = FALSE
+  W_KeepMatchOnReset = FALSE
   PreVote = FALSE
   W_PreVoteRespCountsAsVote = FALSE
   ConfChange = TRUE
